@@ -3,6 +3,9 @@
 #ifndef C07_K
 #define C07_K 4
 #endif
+#ifndef C07_WIDE
+#define C07_WIDE 8
+#endif
 namespace {
    enum Kind { KVar, KField, KBitfield, KAlias, KTypedecl, KFundecl, KPrimary, KSecondary };
    // each (name, type) pair is used by one declaration kind (the property's side condition); all eight kinds occur
@@ -96,6 +99,82 @@ extern "C" void h_scope_history(void) {
          vp_assert(ds.size() == (std::size_t)cnt, 12);
          int pos = 0; for (int j = 0; j < n; ++j) if (pn[j] == pn[i] && pt[j] == pt[i]) { if ((std::size_t)pos < ds.size()) vp_assert(&at(ds, pos) == d[j], 13); ++pos; }
       }
+   }
+   vp_done();
+}
+// wide overload sets: one name accumulates up to C07_WIDE distinct types (a concrete prefix of symbolic length P: (x,t0) .. (x,tP-1), each
+// redeclared once when its index is odd), then two symbolic declarations over 2 names x C07_WIDE types; the full oracle after the prefix and
+// after each symbolic step.  Reaches every size of an overload set from 0 to C07_WIDE (thresholds inside the per-name tables).
+namespace {
+   struct Wide {
+      enum { NT = C07_WIDE };
+      impl::Lexicon lx;
+      impl::Translation_unit unit { lx };
+      impl::Namespace* ns;
+      const ipr::Name* N[2];
+      const ipr::Type* T[NT];
+      Wide() {
+         ns = lx.make_namespace(*unit.global_region());
+         N[0] = &lx.get_identifier(u8"x"); N[1] = &lx.get_identifier(u8"y");
+         const ipr::Type* base[4] = { &lx.int_type(), &lx.char_type(), &lx.bool_type(), &lx.double_type() };
+         for (int i = 0; i < NT; ++i) {      // creation order and address order differ: pointers to later bases are created first
+            const ipr::Type* b = base[(i * 3) % 4]; unsigned depth = i / 4;
+            const ipr::Type* t = b; for (unsigned d = 0; d <= depth; ++d) t = (i % 2) ? static_cast<const ipr::Type*>(&lx.get_pointer(*t)) : static_cast<const ipr::Type*>(&lx.get_reference(*t));
+            T[i] = (i % 5 == 0) ? b : t;
+            for (int j = 0; j < i; ++j) if (T[j] == T[i]) T[i] = &lx.get_rvalue_reference(*t);
+         }
+      }
+      // kind by type index: each (name, type) pair is used by one declaration kind
+      const ipr::Decl* declare(unsigned n, unsigned t) {
+         auto& sc = ns->body.scope;
+         switch ((t + n) % 4) {
+         case 0: return sc.make_var(*N[n], *T[t]);
+         case 1: return sc.make_field(*N[n], *T[t]);
+         case 2: return sc.make_typedecl(*N[n], *T[t]);
+         default: return sc.make_bitfield(*N[n], *T[t]);
+         }
+      }
+   };
+   void wide_oracle(Wide& w, const unsigned* pn, const unsigned* pt, const ipr::Decl* const* d, int n) {
+      const ipr::Scope& scope = w.ns->body.scope;
+      vp_assert(scope.elements().size() == (std::size_t)n, 40);
+      auto prod = util::view<ipr::Product>(scope.type());
+      vp_assert(prod != nullptr && prod->size() == (std::size_t)n, 41);
+      for (int i = 0; i < n; ++i) { vp_assert(&at(scope.elements(), i) == d[i], 42); if (prod) vp_assert(&(*prod)[i] == w.T[pt[i]], 43); }
+      for (unsigned name = 0; name < 2; ++name) {
+         bool declared = false; for (int i = 0; i < n; ++i) if (pn[i] == name) declared = true;
+         auto ovl = scope[*w.N[name]];
+         vp_assert(ovl.is_valid() == declared, 44);
+         if (ovl.is_valid()) for (unsigned ty = 0; ty < Wide::NT; ++ty) {
+            int first = -1; for (int i = n - 1; i >= 0; --i) if (pn[i] == name && pt[i] == ty) first = i;
+            auto sel = ovl.get()[*w.T[ty]];
+            vp_assert(sel.is_valid() == (first >= 0), 45);
+            if (sel.is_valid() && first >= 0) vp_assert(&sel.get() == d[first], 46);
+         }
+      }
+      for (int i = 0; i < n; ++i) {
+         int first = -1, cnt = 0; for (int j = n - 1; j >= 0; --j) if (pn[j] == pn[i] && pt[j] == pt[i]) { first = j; ++cnt; }
+         const ipr::Decl* m = nullptr; int out = vp_outcome([&] { m = &d[i]->master(); });
+         vp_assert(out == 0 && m == d[first], 47);
+         auto& ds = d[i]->decl_set();
+         vp_assert(ds.size() == (std::size_t)cnt, 48);
+         int pos = 0; for (int j = 0; j < n; ++j) if (pn[j] == pn[i] && pt[j] == pt[i]) { if ((std::size_t)pos < ds.size()) vp_assert(&at(ds, pos) == d[j], 49); ++pos; }
+      }
+   }
+}
+extern "C" void h_wide_overloads(void) {
+   Wide* w = new Wide;
+   unsigned pn[2 * Wide::NT + 2], pt[2 * Wide::NT + 2]; const ipr::Decl* d[2 * Wide::NT + 2]; int n = 0;
+   unsigned P = vp_pick(Wide::NT + 1); bool descending = vp_flag();
+   for (unsigned i = 0; i < P; ++i) {
+      unsigned t = descending ? Wide::NT - 1 - i : i;
+      pn[n] = 0; pt[n] = t; d[n] = w->declare(0, t); ++n;
+      if (i % 2) { pn[n] = 0; pt[n] = t; d[n] = w->declare(0, t); ++n; }       // a redeclaration
+   }
+   wide_oracle(*w, pn, pt, d, n);
+   for (int k = 0; k < 2; ++k) {
+      pn[n] = vp_pick(2); pt[n] = vp_pick(Wide::NT); d[n] = w->declare(pn[n], pt[n]); ++n;
+      wide_oracle(*w, pn, pt, d, n);
    }
    vp_done();
 }
